@@ -8,6 +8,8 @@ ID = "C02"
 THEOREMS = ["C02_phase_agreement", "C02_label_pass_is_run", "C02_label_binding", "C02_size_agree",
             "C02_opcode_size_agree", "C02_fail_not_shift", "C02_phase_check", "C02_label_final_value",
             "C02_trace_oracle", "C02_first_pass_visits"]
+# model-tie modules whose correspondence is part of this property's check (parts of the model its theorems rest on)
+TIES = ['ASM']
 RULE = ("generated programs (all statement kinds, nested blocks/scopes/macros/loops/conditionals, *= and @= moves, "
         "LoROM/HiROM/low2) + width-inference stress programs (constant shadowed by a later label of the same name, "
         "forward/backward symbol operands at every width boundary) + bank-crossing layouts; the per-node addresses of "
